@@ -102,9 +102,11 @@ Proof. unfold do_refresh_process. cbv zeta. repeat dm; subst; grants_chain. Qed.
 
 Definition g_le (g g' : grant) : Prop :=
   g_user g' = g_user g /\ g_client g' = g_client g /\ g_scope g' = g_scope g /\ g_areq_scope g' = g_areq_scope g /\
-  g_redirect g' = g_redirect g /\ g_exp g' = g_exp g /\ (g_revoked g = true -> g_revoked g' = true).
+  g_redirect g' = g_redirect g /\ g_exp g' = g_exp g /\ (g_revoked g = true -> g_revoked g' = true) /\
+  (g_removed g = true -> g_removed g' = true).
 Lemma g_le_refl g : g_le g g. Proof. unfold g_le; repeat split; auto. Qed.
 Lemma g_le_revoke g : g_le g (revoke_g g). Proof. unfold g_le, revoke_g; cbn; repeat split; auto. Qed.
+Lemma g_le_remove g : g_le g (remove_g g). Proof. unfold g_le, remove_g; cbn; repeat split; auto. Qed.
 Definition gext (s s' : st) : Prop :=
   forall gi g, nth_error (grants s) gi = Some g -> exists g', nth_error (grants s') gi = Some g' /\ g_le g g'.
 Lemma gext_same s s' : grants s' = grants s -> gext s s'.
@@ -125,12 +127,22 @@ Proof.
   - apply gext_same. unfold do_revoke_ep. repeat dm; reflexivity.
   - apply gext_same. unfold do_api_revoke. repeat dm; reflexivity.
   - destruct (nth_error (grants s) gi) as [g1|] eqn:E; cbn [fst]; [|now apply gext_same].
+    destruct (g_removed g1); cbn [fst]; [now apply gext_same|].
     intros k g H. unfold revoke_grant_at, map_toks, upd_grant; cbn. destruct (Nat.eq_dec gi k) as [->|N].
     + rewrite nth_upd_same, H. cbn. eauto using g_le_revoke.
     + rewrite nth_upd_other by auto. eauto using g_le_refl.
   - destruct (nth_error (grants s) gi) as [g0|] eqn:E; cbn [fst]; [|now apply gext_same].
+    destruct (existsb (live_branch g0) (grants s)); cbn [fst]; [|now apply gext_same].
     intros k g H. unfold revoke_branch; cbn. rewrite nth_error_map, H. cbn.
-    destruct (same_branch g0 g); eauto using g_le_refl, g_le_revoke.
+    destruct (live_branch g0 g); eauto using g_le_refl, g_le_revoke.
+  - (* RemoveGrant *) destruct (nth_error (grants s) gi) as [g1|] eqn:E; cbn [fst]; [|now apply gext_same].
+    intros k g H. unfold upd_grant; cbn. destruct (Nat.eq_dec gi k) as [->|N].
+    + rewrite nth_upd_same, H. cbn. eauto using g_le_remove.
+    + rewrite nth_upd_other by auto. eauto using g_le_refl.
+  - (* RevokeUser *) destruct (nth_error (grants s) gi) as [g0|] eqn:E; cbn [fst]; [|now apply gext_same].
+    destruct (existsb (live_user g0) (grants s)); cbn [fst]; [|now apply gext_same].
+    intros k g H. unfold revoke_user; cbn. rewrite nth_error_map, H. cbn.
+    destruct (live_user g0 g); eauto using g_le_refl, g_le_revoke.
   - now apply gext_same.
 Qed.
 
